@@ -136,3 +136,25 @@ def corr_poly(ctx, driver, cases, results):
         ctx.count("poly_verdict:%s" % a.get("linear_cc"))
         if a.get("linear_cc") != pc["real_lin"]:
             ctx.tie_break("corr:poly-verdict", {"case": case["indict"], "variable": pc["var"], "rhs": pc["rhs"], "model": a, "impl_shape_is_linear": pc["real_lin"]})
+
+
+def corr_from_ode(ctx, driver, cases, results):
+    """model `fromOde` (re-attachment of foreign linear terms) vs the real Shape.from_ode, on values at a random point"""
+    ops = []
+    for case, res in zip(cases, results):
+        if not isinstance(res, dict):
+            continue
+        if res.get("from_ode_error"):
+            ctx.cov.setdefault("harness_errors", []).append("from_ode bridge: " + res["from_ode_error"])
+        for c in res.get("from_ode_calls") or []:
+            ops.append((case, c))
+    if driver is None or not ops:
+        return
+    ans = driver.ask([("from-ode", c["payload"]) for _, c in ops])
+    for (case, c), a in zip(ops, ans):
+        ctx.count("corr_from_ode")
+        ok = "local_factors" in a and len(a["local_factors"]) == len(c["real"]["local_factors"]) and \
+            all(numeval.close(Fraction(m), Fraction(r)) for m, r in zip(a["local_factors"], c["real"]["local_factors"])) and \
+            all(numeval.close(Fraction(a[k]), Fraction(c["real"][k])) for k in ("inhom", "nonlin", "reconstituted"))
+        if not ok:
+            ctx.tie_break("corr:from-ode", {"case": case["indict"], "symbol": c["symbol"], "model": a, "impl": c["real"]})
